@@ -44,10 +44,19 @@ func declMatrix() []declCase {
 	add("enum", "enum Status {\n  option ACTIVE\n  option INACTIVE\n}\n")
 	add("enum explicit unspecified", "enum Status {\n  option UNSPECIFIED | Initial Status\n  option ACTIVE\n}\n")
 	add("enum prefix", "enum Status {\n  prefix = \"ST_\"\n  option ACTIVE\n}\n")
+	// enum value names with and without the enum's prefix (default prefix = the enum's name in upper snake case; explicit
+	// `prefix`): options and the values of rules.in / rules.notIn may be written either way
+	add("enum rule values written with the default prefix", "enum Status {\n  option ACTIVE\n  option INACTIVE\n}\n\nobject Foo {\n  field s enum:Status {\n    rules.in = [\"STATUS_ACTIVE\"]\n  }\n  field t enum:Status {\n    rules.notIn = [\"STATUS_INACTIVE\", \"ACTIVE\"]\n  }\n  field ts array:enum:Status {\n    items.enum.rules.in = [\"STATUS_INACTIVE\"]\n  }\n}\n")
+	add("enum rule values written with an explicit prefix", "enum Status {\n  prefix = \"ST_\"\n  option ACTIVE\n  option INACTIVE\n}\n\nobject Foo {\n  field s enum:Status {\n    rules.in = [\"ST_ACTIVE\", \"INACTIVE\"]\n  }\n}\n")
+	add("enum options written with the prefix", "enum Status {\n  option STATUS_UNSPECIFIED\n  option STATUS_ACTIVE\n  option INACTIVE\n}\n\nobject Foo {\n  field s enum:Status {\n    rules.in = [\"ACTIVE\", \"STATUS_INACTIVE\"]\n  }\n}\n")
+	add("inline enum rule values written with the prefix", "object Foo {\n  field kind enum {\n    option A\n    option B\n    rules.in = [\"KIND_B\", \"A\"]\n  }\n}\n")
 	add("enum empty", "enum Status {\n}\n")
 	add("enum info fields", "enum Status {\n  info color {\n    label = \"Color\"\n    description = \"the colour\"\n  }\n  option ACTIVE\n}\n")
 	add("enum option info", "enum Status {\n  option ACTIVE {\n    info.color = \"red\"\n  }\n}\n")
 	add("enum info fields and option info", "enum Status {\n  info color {\n    label = \"Color\"\n  }\n  info shape {\n    label = \"Shape\"\n  }\n  option ACTIVE {\n    info.color = \"red\"\n    info.shape = \"round\"\n  }\n  option INACTIVE {\n    info.color = \"blue\"\n  }\n}\n")
+	// a description on every kind of node that takes one (each becomes a SourceCodeInfo location of the generated file)
+	add("descriptions on every node kind", "object Foo {\n  | A foo\n  | second line\n\n  field name string | the name\n  field kind enum {\n    | inline kind\n    option A | option a\n    option B {\n      | option b\n    }\n  }\n  field inner object {\n    | inline inner\n    field x string | x of inner\n  }\n}\n\noneof Choice {\n  | A choice\n  option a object {\n    | option a\n    field y string | y of a\n  }\n}\n\nenum Status {\n  | A status\n  option ACTIVE | is active\n  option INACTIVE {\n    | is not\n  }\n}\n\nservice Foo {\n  | The foo service\n  basePath = \"/foo/v1\"\n  method GetFoo {\n    | gets a foo\n    httpMethod = \"GET\"\n    httpPath = \"/foo/:id\"\n    request {\n      field id string | the id\n    }\n    response {\n      field name string | the name\n    }\n  }\n}\n\ntopic Bar publish {\n  | The bar topic\n  message PostBar {\n    | posts a bar\n    field barId key:id62 | the bar\n  }\n}\n")
+	add("protobuf keywords as names", "object Message {\n  field package string\n  field option string\n  field import string\n  field syntax string\n  field message object {\n    field repeated bool\n    field optional string\n    field map map:string\n  }\n  field service enum {\n    option RPC\n    option STREAM\n    option RETURNS\n  }\n}\n\nenum Enum {\n  option MESSAGE\n  option ONEOF\n}\n\noneof Oneof {\n  option extend object {\n    field reserved string\n  }\n}\n")
 	add("object nested object", "object Foo {\n  field x string\n\n  object Bar {\n    field x string\n  }\n}\n")
 	add("README inline array example", "object Foo {\n  field bars array {\n    field barId key:id62\n  }\n}\n")
 	add("object inline named", "object Foo {\n  field bars array:object {\n    object.name = \"Bar\"\n    field barId key:id62\n  }\n}\n")
@@ -79,7 +88,38 @@ func declMatrix() []declCase {
 	add("entity minimal", "entity Foo {\n  key fooId key:id62 {\n    primary = true\n  }\n  status ACTIVE\n}\n")
 	add("entity readme", "entity Foo {\n  | Foo is lorem ipsum\n\n  key fooId key:id62 {\n    primary = true\n  }\n\n  data name string\n\n  status ACTIVE\n  status INACTIVE\n\n  event Create {\n    field name string\n  }\n\n  event Archive {\n  }\n}\n")
 	add("entity tenant and summary", "entity Foo {\n  key fooId key:id62 {\n    primary = true\n  }\n  key accountId key:id62 {\n    primary = false\n    tenant = \"account\"\n  }\n  data name string\n  status ACTIVE\n  event Create {\n    field name string\n  }\n  summary {\n    field name string\n  }\n}\n")
+	// entity key classifications (sourcedef EntityKey: primary / shardKey / tenant): the generated query service takes its
+	// URL parameters and its request fields from the same classification
+	add("entity shard key that is not primary", "entity Foo {\n  key fooId key:id62 {\n    primary = true\n  }\n  key tenantId key:id62 {\n    shardKey = true\n    tenant = \"tenant\"\n  }\n  data name string\n  status ACTIVE\n  event Create {\n    field name string\n  }\n}\n")
+	add("entity shard key that is also primary", "entity Foo {\n  key fooId key:id62 {\n    primary = true\n  }\n  key regionId key:id62 {\n    primary = true\n    shardKey = true\n  }\n  data name string\n  status ACTIVE\n  event Create {\n    field name string\n  }\n}\n")
+	add("entity primary, shard, tenant and plain keys", "entity Foo {\n  key fooId key:id62 {\n    primary = true\n  }\n  key shardId key:id62 {\n    shardKey = true\n  }\n  key accountId key:id62 {\n    tenant = \"account\"\n  }\n  key otherId key:id62\n  key createdAt timestamp\n  data name string\n  status ACTIVE\n  status INACTIVE\n  event Create {\n    field name string\n  }\n  query {\n    eventsInGet = true\n  }\n}\n")
 	add("entity query listRequest", "entity Foo {\n  key fooId key:id62 {\n    primary = true\n  }\n  data name string\n  status ACTIVE\n  event Create {\n    field name string\n  }\n  query.listRequest.defaultSort = [\"name\"]\n}\n")
+	// services / topics whose generated sub-package file imports the main file of the same source (request, response and
+	// message fields referring to an object, a oneof and an enum declared next to the service): several output files
+	// that depend on each other, through CompilePackage, LintFile and LintAll
+	add("service referring to types of its own file", "object Bar {\n  field x string\n}\n\noneof Choice {\n  option a object {\n    field y string\n  }\n}\n\nenum Kind {\n  option A\n  option B\n}\n\nservice Foo {\n  basePath = \"/foo/v1\"\n  method GetBar {\n    httpMethod = \"POST\"\n    httpPath = \"/bar\"\n    request {\n      field kind enum:Kind {\n        rules.in = [\"B\"]\n      }\n      field choice oneof:Choice\n    }\n    response {\n      field bar object:Bar\n      field bars array:object:Bar\n    }\n  }\n}\n")
+	add("topic referring to types of its own file", "object Bar {\n  field x string\n}\n\nenum Kind {\n  option A\n}\n\ntopic Foo publish {\n  message PostFoo {\n    field bar object:Bar\n    field kind enum:Kind\n  }\n}\n\ntopic Baz reqres {\n  request {\n    field bar object:Bar\n  }\n  reply {\n    field kind enum:Kind\n  }\n}\n")
+	add("entity and service in one file", "entity Foo {\n  key fooId key:id62 {\n    primary = true\n  }\n  data name string\n  status ACTIVE\n  event Create {\n    field name string\n  }\n}\n\nservice FooExtra {\n  basePath = \"/foo/v1/extra\"\n  method GetFooState {\n    httpMethod = \"GET\"\n    httpPath = \"/state/:fooId\"\n    request {\n      field fooId key:id62\n    }\n    response {\n      field state object:FooState\n      field keys object:FooKeys\n    }\n  }\n}\n")
+	// an inline type named like the message that holds it (field `foo` of `object Foo` -> Foo.Foo): j5convert writes
+	// inline type names relative to the package, the link step resolves relative names from the innermost scope
+	// (qualifyTypeNames, at both the compile and the lint call site), in main and in generated sub-package files
+	add("inline object named like its root object", "object Foo {\n  field foo object {\n    field x string\n  }\n}\n")
+	add("inline types next to one named like the root", "object Foo {\n  field foo object {\n    field x string\n    field foo object {\n      field y string\n    }\n  }\n  field bar object {\n    field y string\n  }\n  field kind enum {\n    option A\n  }\n  field m map:string\n  field ms map:object {\n    field z string\n  }\n  field bars array:object {\n    field w string\n  }\n}\n")
+	add("inline enum named like its root object", "object Foo {\n  field foo enum {\n    option A\n    option B\n  }\n  field other object {\n    field x string\n  }\n}\n")
+	add("inline object named like its root oneof", "oneof Foo {\n  option foo object {\n    field x string\n  }\n  option bar object {\n    field y string\n  }\n}\n")
+	add("inline object named like the request message", "service Foo {\n  basePath = \"/foo/v1\"\n  method GetFoo {\n    httpMethod = \"POST\"\n    httpPath = \"/foo\"\n    request {\n      field getFooRequest object {\n        field x string\n      }\n      field other object {\n        field y string\n      }\n    }\n    response {\n      field getFooResponse object {\n        field z string\n      }\n      field m map:string\n    }\n  }\n}\n")
+	add("inline object named like the topic message", "topic Foo publish {\n  message PostFoo {\n    field postFoo object {\n      field x string\n    }\n    field other object {\n      field y string\n    }\n  }\n}\n")
+	add("entity event field named like the event", "entity Foo {\n  key fooId key:id62 {\n    primary = true\n  }\n  data fooData object {\n    field x string\n  }\n  status ACTIVE\n  event Create {\n    field create object {\n      field name string\n    }\n  }\n}\n")
+	// integer rule values that need more than 32 bits (schema.proto IntegerField.Rules minimum / maximum / multiple_of are
+	// int64): literals at and beyond 2^31 and 2^32, up to the largest int64, for every format they are in range for
+	add("integer INT64 rules beyond 32 bits", "object Foo {\n  field a integer:INT64 {\n    rules.minimum = 2147483648\n    rules.maximum = 5000000000\n  }\n  field b integer:INT64 {\n    rules.minimum = 1000000000000\n    rules.maximum = 9223372036854775807\n  }\n  field c integer:INT64 {\n    rules.maximum = 4294967296\n    rules.exclusiveMaximum = true\n  }\n}\n")
+	add("integer UINT32 and UINT64 rules beyond 31 bits", "object Foo {\n  field a integer:UINT32 {\n    rules.minimum = 2147483648\n    rules.maximum = 4294967295\n  }\n  field b integer:UINT64 {\n    rules.minimum = 4294967296\n    rules.maximum = 9223372036854775807\n  }\n}\n")
+	add("integer INT32 rules at the 32 bit limit", "object Foo {\n  field a integer:INT32 {\n    rules.minimum = 0\n    rules.maximum = 2147483647\n  }\n}\n")
+	// schema.proto IntegerField.Rules.multiple_of: since /repo c0895b5 a compile error "multipleOf is not implemented" (it was
+	// silently dropped before): a rule of the schema language that is not accepted, with a signature of its own
+	add("integer rules multipleOf", "object Foo {\n  field a integer:INT32 {\n    rules.multipleOf = 5\n  }\n}\n")
+	add("integer INT64 rules beyond 32 bits in array and map items", "object Foo {\n  field a array:integer:INT64 {\n    items.integer.rules.maximum = 5000000000\n  }\n  field m map:integer:INT64 {\n    itemSchema.integer.rules.minimum = 5000000000\n  }\n}\n")
+	add("unsigned 64 bit schema fields beyond 32 bits", "object Foo {\n  field s string {\n    rules.minLength = 1\n    rules.maxLength = 5000000000\n  }\n  field xs array:string {\n    rules.maxItems = 4294967296\n  }\n}\n")
 	add("entity nested schemas", "entity Foo {\n  key fooId key:id62 {\n    primary = true\n  }\n  data kind enum:Kind\n  data part object:Part\n  status ACTIVE\n  event Create {\n    field part object:Part\n  }\n  enum Kind {\n    option A\n  }\n  object Part {\n    field x string\n  }\n}\n")
 	// imports
 	out = append(out, declCase{Name: "import package", Pkg: "foo.v1", Main: mainFile, Files: map[string]string{
@@ -114,6 +154,26 @@ func declMatrix() []declCase {
 					impDir + "/types.j5s": "package " + imported + "\n\nobject Bar {\n  field x string\n}\n\noneof Choice {\n  option a object {\n    field y string\n  }\n}\n\nenum Kind {\n  option A\n  option B\n}\n",
 				}})
 			}
+		}
+	}
+	// one source whose generated files (main, service sub-package, topic sub-package) ALL refer to the same types of another
+	// package: every generated file needs the import of its own (the three file contexts share one root context)
+	{
+		bazTypes := "package baz.v1\n\nobject Bar {\n  field x string\n}\n\noneof Choice {\n  option a object {\n    field y string\n  }\n}\n\nenum Kind {\n  option A\n  option B\n}\n"
+		obj := "object Foo {\n  field bar object:%[1]s.Bar\n  field kind enum:%[1]s.Kind\n}\n\n"
+		svc := "service FooService {\n  basePath = \"/foo/v1\"\n  method GetFoo {\n    httpMethod = \"POST\"\n    httpPath = \"/foo\"\n    request {\n      field bar object:%[1]s.Bar\n      field choice oneof:%[1]s.Choice\n    }\n    response {\n      field bars array:object:%[1]s.Bar\n      field kind enum:%[1]s.Kind {\n        rules.in = [\"B\"]\n      }\n    }\n  }\n}\n\n"
+		top := "topic FooTopic publish {\n  message PostFoo {\n    field bar object:%[1]s.Bar\n    field kind enum:%[1]s.Kind\n  }\n}\n\n"
+		for _, v := range []struct{ name, imp, pre, body string }{
+			{"main, service and topic", "import baz.v1:baz", "baz", obj + svc + top},
+			{"service and topic only", "import baz.v1:baz", "baz", svc + top},
+			{"topic before service before main", "import baz.v1:other", "other", top + svc + obj},
+			{"main and topic, by package name", "import baz.v1", "baz", obj + top},
+			{"main and service, fully qualified", "import baz.v1", "baz.v1", obj + svc},
+		} {
+			out = append(out, declCase{Name: "imported types used in " + v.name + " of one source", Pkg: "foo.v1", Main: mainFile, Files: map[string]string{
+				mainFile:          "package foo.v1\n\n" + v.imp + "\n\n" + strings.ReplaceAll(v.body, "%[1]s", v.pre),
+				"baz/v1/types.j5s": bazTypes,
+			}})
 		}
 	}
 	out = append(out, declCase{Name: "import proto file", Pkg: "foo.v1", Main: mainFile, Files: map[string]string{
